@@ -27,7 +27,9 @@
 //                              every command carries synthetic times from 2001
 //   rejected-mutates:<type>    a command answered with an error changed some table
 // CORRESPONDENCE with the Lean dispatch model (CV.Fsm over the regenerated dispatch table):
-//   tbl / ap / hist / cov lines, see lean/CV/Engine/C01.lean.
+//   tbl / ap / hist / cov lines, see lean/CV/Engine/C01.lean; with the store model (storeSection) and
+//   with the keyed-table model CV.Keyed (keyed.go: ACL policy/role/binding-rule/auth-method, federation
+//   state, CA leaf — results and table dumps after every command, plus the keyed:* monitors).
 package main
 
 import (
@@ -429,7 +431,7 @@ func (r *replica) dump(verbose bool) (map[string]*tableDump, []string) {
 		s, ts := canonValue(item)
 		note(table, ts)
 		rows[table] = append(rows[table], s)
-		return false
+		return true // keep going: `false` ends the walk of this table (round 5: earlier rounds returned false here and so compared only the first row of every table)
 	})
 	if err != nil {
 		rows["~walk-error"] = []string{err.Error()}
@@ -1083,6 +1085,7 @@ func main() {
 	envSection(run)
 	witnessSection(run)
 	storeSection(run)
+	keyedSection(run)
 	var seen []string
 	missing := []string{}
 	for _, b := range regOrder {
@@ -1094,7 +1097,8 @@ func main() {
 	}
 	// message types whose handler is a concrete Lean model in replicas_agree_consul_families (owner of
 	// the model and of its tie in brackets); the rest of the REGISTERED types is the still-opaque list
-	concrete := []byte{0, 1, 2, 3, 5, 7, 8 /* CV.Store: C03 C04 */, 22, 13, 9, 45, 17, 18 /* CV.Cas: C10 */, 12 /* CV.Ixn: C13 */, 31, 6 /* CV.Store.CatX: C07 */, 4}
+	concrete := []byte{0, 1, 2, 3, 5, 7, 8 /* CV.Store: C03 C04 */, 22, 13, 9, 45, 17, 18 /* CV.Cas: C10 */, 12 /* CV.Ixn: C13 */, 31, 6 /* CV.Store.CatX: C07 */, 4,
+		19, 20, 23, 24, 25, 26, 27, 28, 30, 21 /* CV.Keyed: this check, keyedSection */}
 	isConcrete := map[byte]bool{}
 	var concreteNames, opaqueNames []string
 	for _, b := range concrete {
@@ -1109,7 +1113,7 @@ func main() {
 	run.Line("fam", "concrete="+hx.EncList(concreteNames)+" opaque="+hx.EncList(opaqueNames))
 	run.Extra["concrete_message_types"] = concreteNames
 	run.Extra["opaque_message_types"] = opaqueNames
-	run.Extra["message_types"] = fmt.Sprintf("%d concrete in replicas_agree_consul_families, %d opaque (hypothesis hrest), %d registered", len(concreteNames), len(opaqueNames), len(table))
+	run.Extra["message_types"] = fmt.Sprintf("%d concrete in replicas_agree_consul_families_keyed, %d opaque (hypothesis hrest), %d registered", len(concreteNames), len(opaqueNames), len(table))
 	covOut := "ok"
 	if len(missing) > 0 {
 		covOut = "missing=" + hx.EncList(missing)
